@@ -32,6 +32,7 @@ type FuncSpec struct {
 	Params       []string // optional explicit parameter names
 	Requires     []*Clause
 	Ensures      []*Clause
+	Assumes      []*Clause // postconditions callers may assume but the body is not checked against (listed)
 	Modifies     []*Expr
 	ModAll       bool
 	Allocates    []string
@@ -43,6 +44,8 @@ type FuncSpec struct {
 	PanicAssumed []string
 	PanicsIf     []*Clause // specified panics: panic allowed exactly under these conditions
 	Callbacks    map[string]*FuncSpec
+	GhostSets    []*GhostSet
+	GhostExits   []*GhostSet
 	NoSafety     bool // do not emit bounds/nil obligations (pure spec use)
 	Lemma        bool
 	LemmaParams  []QVar
@@ -64,7 +67,31 @@ type SpecFunc struct {
 	Pkg    string
 }
 
+// Hook is a declaration attached to a heap leaf family.
+type Hook struct {
+	Kind   string // protected | onwrite
+	Target *Expr  // pkg.Type.field[.field] optionally with [*]
+	Elems  bool
+	By     *Expr  // protected: guard expression over `this`
+	Ghost  string // onwrite: ghost name
+	Value  *Expr  // onwrite: new value
+	Props  []string
+	Src    string
+	File   string
+	Line   int
+	// resolved
+	Key     string
+	rootKey string
+}
+
+type GhostSet struct {
+	Name  string
+	Value *Expr
+	Src   string
+}
+
 type Specs struct {
+	Hooks     []*Hook
 	Funcs     map[string]*FuncSpec
 	Ghosts    map[string]*GhostDecl
 	SpecFuncs map[string]*SpecFunc
@@ -75,7 +102,7 @@ type Specs struct {
 var tagRe = regexp.MustCompile(`\s@C[0-9]{2,3}\b`)
 var labelRe = regexp.MustCompile(`^\[([A-Za-z0-9_.\-]+)\]\s*`)
 
-var clauseKeywords = map[string]bool{"requires": true, "ensures": true, "modifies": true, "allocates": true,
+var clauseKeywords = map[string]bool{"assumes": true, "ghostset": true, "ghostexit": true, "preserves": true, "requires": true, "ensures": true, "modifies": true, "allocates": true,
 	"loop": true, "inline": true, "assume": true, "pure": true, "props": true, "panic_assumed": true,
 	"panics_if": true, "callback": true, "nosafety": true, "params": true, "bounded": true}
 
@@ -133,7 +160,7 @@ func (sp *Specs) loadSpecFile(path string) error {
 	var stmts []stmt
 	for i, t := range lines {
 		w := firstWord(t)
-		if w == "spec" || w == "prove" || w == "ghost" || w == "ghostfield" || w == "specfunc" || w == "lemma" || clauseKeywords[w] {
+		if w == "spec" || w == "prove" || w == "protected" || w == "onwrite" || w == "ghost" || w == "ghostfield" || w == "specfunc" || w == "lemma" || clauseKeywords[w] {
 			stmts = append(stmts, stmt{strings.TrimSpace(t), nums[i]})
 		} else if len(stmts) > 0 {
 			stmts[len(stmts)-1].text += " " + strings.TrimSpace(t)
@@ -172,6 +199,51 @@ func (sp *Specs) loadSpecFile(path string) error {
 			cur = &FuncSpec{Key: key, File: path, Line: s.line, Params: params, Loops: map[int]*LoopSpec{}, Callbacks: map[string]*FuncSpec{}}
 			curCb = nil
 			sp.Funcs[key] = cur
+		case "protected", "onwrite":
+			h := &Hook{Kind: w, File: path, Line: s.line, Src: rest}
+			for _, m := range tagRe.FindAllString(" "+rest, -1) {
+				h.Props = append(h.Props, strings.TrimSpace(m)[1:])
+			}
+			body := strings.TrimSpace(tagRe.ReplaceAllString(" "+rest, ""))
+			var tgt, tail string
+			if w == "protected" {
+				i := strings.Index(body, " by ")
+				if i < 0 {
+					return errf("protected TARGET by EXPR")
+				}
+				tgt, tail = strings.TrimSpace(body[:i]), strings.TrimSpace(body[i+4:])
+				e, err := parseExpr(tail)
+				if err != nil {
+					return errf("%v", err)
+				}
+				h.By = e
+			} else {
+				i := strings.Index(body, ":")
+				if i < 0 {
+					return errf("onwrite TARGET: GHOST = EXPR")
+				}
+				tgt, tail = strings.TrimSpace(body[:i]), strings.TrimSpace(body[i+1:])
+				j := strings.Index(tail, "=")
+				if j < 0 {
+					return errf("onwrite TARGET: GHOST = EXPR")
+				}
+				h.Ghost = strings.TrimSpace(tail[:j])
+				e, err := parseExpr(strings.TrimSpace(tail[j+1:]))
+				if err != nil {
+					return errf("%v", err)
+				}
+				h.Value = e
+			}
+			if strings.HasSuffix(tgt, "[*]") {
+				h.Elems = true
+				tgt = strings.TrimSuffix(tgt, "[*]")
+			}
+			te, err := parseExpr(tgt)
+			if err != nil {
+				return errf("%v", err)
+			}
+			h.Target = te
+			sp.Hooks = append(sp.Hooks, h)
 		case "prove":
 			// prove NAME(a T, b U): a machine-checked lemma (requires ==> ensures)
 			pi := strings.Index(rest, "(")
@@ -325,7 +397,7 @@ func parseClauseBody(rest, path string, line int) (*Clause, error) {
 
 func (sp *Specs) parseClause(fs *FuncSpec, w, rest, path string, line int) error {
 	switch w {
-	case "requires", "ensures", "panics_if":
+	case "requires", "ensures", "panics_if", "assumes":
 		c, err := parseClauseBody(rest, path, line)
 		if err != nil {
 			return err
@@ -343,6 +415,11 @@ func (sp *Specs) parseClause(fs *FuncSpec, w, rest, path string, line int) error
 			fs.Ensures = append(fs.Ensures, c)
 		case "panics_if":
 			fs.PanicsIf = append(fs.PanicsIf, c)
+		case "assumes":
+			if c.Label == "" {
+				c.Label = "assumed" + strconv.Itoa(len(fs.Assumes))
+			}
+			fs.Assumes = append(fs.Assumes, c)
 		}
 	case "modifies":
 		if strings.TrimSpace(rest) == "*" {
@@ -350,6 +427,10 @@ func (sp *Specs) parseClause(fs *FuncSpec, w, rest, path string, line int) error
 			return nil
 		}
 		for _, it := range splitTop(rest) {
+			if strings.HasPrefix(it, "[]") || strings.HasPrefix(it, "map[") {
+				fs.Modifies = append(fs.Modifies, &Expr{Kind: "class", Name: it})
+				continue
+			}
 			e, err := parseExpr(it)
 			if err != nil {
 				return err
@@ -388,6 +469,32 @@ func (sp *Specs) parseClause(fs *FuncSpec, w, rest, path string, line int) error
 			ls.Decr = c
 		default:
 			return fmt.Errorf("loop clause %q", parts[1])
+		}
+	case "preserves":
+		c, err := parseClauseBody(rest, path, line)
+		if err != nil {
+			return err
+		}
+		if c.Label == "" {
+			c.Label = "inv" + strconv.Itoa(len(fs.Requires))
+		}
+		c2 := *c
+		fs.Requires = append(fs.Requires, c)
+		fs.Ensures = append(fs.Ensures, &c2)
+	case "ghostset", "ghostexit":
+		j := strings.Index(rest, "=")
+		if j < 0 {
+			return fmt.Errorf("ghostset NAME = EXPR")
+		}
+		e, err := parseExpr(strings.TrimSpace(rest[j+1:]))
+		if err != nil {
+			return err
+		}
+		gs := &GhostSet{Name: strings.TrimSpace(rest[:j]), Value: e, Src: rest}
+		if w == "ghostexit" {
+			fs.GhostExits = append(fs.GhostExits, gs)
+		} else {
+			fs.GhostSets = append(fs.GhostSets, gs)
 		}
 	case "inline":
 		fs.Inline = true
